@@ -390,6 +390,77 @@ pub struct Dgram {
     pub seq: u64,
     /// exact stateless reset token of the CID in use (reset-like datagrams only)
     pub exact: bool,
+    /// genuine packets this datagram was built from (sender-side decode)
+    pub pkts: Vec<PkSum>,
+    /// byte range [lo, hi) that was tampered with in transit, if any
+    pub damage: Option<(usize, usize)>,
+}
+
+/// Summary of one genuine packet: identity, extent and non-padding frame counts by FrameStats index
+#[derive(Debug, Clone)]
+pub struct PkSum {
+    pub ty: PType,
+    pub space: i64,
+    pub pn: u64,
+    pub start: usize,
+    pub len: usize,
+    pub frames: Vec<(usize, u64)>,
+}
+
+pub fn frame_index(f: &Frame) -> Option<usize> {
+    Some(match f {
+        Frame::Padding(_) => return None,
+        Frame::Ack { .. } => 0,
+        Frame::AckFrequency { .. } => 1,
+        Frame::Crypto { .. } => 2,
+        Frame::Close { .. } => 3,
+        Frame::DataBlocked(_) => 4,
+        Frame::Datagram { .. } => 5,
+        Frame::HandshakeDone => 6,
+        Frame::ImmediateAck => 7,
+        Frame::MaxData(_) => 8,
+        Frame::MaxStreamData { .. } => 9,
+        Frame::MaxStreams { uni: false, .. } => 10,
+        Frame::MaxStreams { uni: true, .. } => 11,
+        Frame::NewConnectionId { .. } => 12,
+        Frame::NewToken { .. } => 13,
+        Frame::PathChallenge(_) => 14,
+        Frame::PathResponse(_) => 15,
+        Frame::Ping => 16,
+        Frame::ResetStream { .. } => 17,
+        Frame::RetireConnectionId(_) => 18,
+        Frame::StreamDataBlocked { .. } => 19,
+        Frame::StreamsBlocked { uni: false, .. } => 20,
+        Frame::StreamsBlocked { uni: true, .. } => 21,
+        Frame::StopSending { .. } => 22,
+        Frame::Stream { .. } => 23,
+        Frame::Unknown(_) => return None,
+    })
+}
+
+pub fn pk_summaries(pkts: &[Pkt]) -> Vec<PkSum> {
+    pkts.iter()
+        .map(|p| {
+            let mut fr: Vec<(usize, u64)> = Vec::new();
+            for f in &p.frames {
+                if let Some(i) = frame_index(f) {
+                    if let Some(e) = fr.iter_mut().find(|e| e.0 == i) {
+                        e.1 += 1;
+                    } else {
+                        fr.push((i, 1));
+                    }
+                }
+            }
+            PkSum {
+                ty: p.ty,
+                space: p.ty.space().map_or(-1, |x| x as i64),
+                pn: p.pn,
+                start: p.start,
+                len: p.len,
+                frames: fr,
+            }
+        })
+        .collect()
 }
 
 // ---------------------------------------------------------------------------------------------
@@ -833,6 +904,8 @@ impl World {
             cls: "gen",
             seq: 0,
             exact: false,
+            pkts: pk_summaries(pkts),
+            damage: None,
         };
         if let Some(mut m) = self.mitm.take() {
             let secrets: Vec<u64> = self
@@ -848,6 +921,18 @@ impl World {
             };
             m(&mut d, pkts, &mut ctx);
             self.mitm = Some(m);
+            if d.cls == "inject" {
+                let mut rctx = TxCtx {
+                    dst_cid_len: pkts.last().map_or(0, |p| p.dcid.len()),
+                    next_pn: [0; 3],
+                };
+                if let Some(mut np) = wire::parse_datagram(&d.data, &mut rctx) {
+                    for (a, b) in np.iter_mut().zip(pkts.iter()) {
+                        a.pn = b.pn;
+                    }
+                    d.pkts = pk_summaries(&np);
+                }
+            }
         }
         if self.keep_history {
             self.history.push(d.clone());
@@ -880,17 +965,26 @@ impl World {
                 let p = if *pos >= 0 { *pos } else { l + *pos };
                 if p >= 0 && p < l {
                     d.data[p as usize] ^= *x;
+                    d.damage = Some((p as usize, p as usize + 1));
+                    d.cls = "corrupt";
                 }
-                d.cls = "corrupt";
                 self.enqueue(d);
             }
             Fate::Truncate(k) => {
-                let k = (*k).min(d.data.len());
-                d.data.truncate(k);
-                d.cls = "corrupt";
+                if *k < d.data.len() {
+                    d.damage = Some((*k, usize::MAX));
+                    d.data.truncate(*k);
+                    d.cls = "corrupt";
+                }
                 self.enqueue(d);
             }
             Fate::Extend(k) => {
+                // junk after the last packet: a trailing short-header packet absorbs it
+                let l = d.data.len();
+                // after a long-header packet (explicit length) the junk is a separate, undecodable
+                // packet and leaves the genuine ones intact
+                let last_short = pkts.last().is_some_and(|p| p.ty == PType::Short);
+                d.damage = Some((if last_short { l.saturating_sub(1) } else { l }, usize::MAX));
                 d.data.extend(std::iter::repeat(0xa5).take(*k));
                 d.cls = "corrupt";
                 self.enqueue(d);
@@ -899,6 +993,10 @@ impl World {
                 if let Some(nd) = shrink_initial(&d.data, pkts, *k) {
                     d.data = nd;
                     d.cls = "shrunk";
+                    let l = d.data.len();
+                    for p in d.pkts.iter_mut() {
+                        p.len = l;
+                    }
                 }
                 self.enqueue(d);
             }
@@ -936,6 +1034,8 @@ impl World {
             cls,
             seq: 0,
             exact: false,
+            pkts: Vec::new(),
+            damage: None,
         });
         id
     }
@@ -1066,9 +1166,28 @@ impl World {
             .iter()
             .map(pkt_json)
             .collect();
+        // genuine packets that arrive intact: [space, pn, [[frame index, count]..]]
+        let ipk: Vec<Value> = d
+            .pkts
+            .iter()
+            .filter(|p| match d.damage {
+                None => true,
+                Some((lo, hi)) => p.start + p.len <= lo || p.start >= hi,
+            })
+            .map(|p| {
+                let ty = match p.ty {
+                    PType::Retry => "R",
+                    PType::VersionNeg => "V",
+                    _ => "P",
+                };
+                json!({"ty":ty,"sp":p.space,"pn":p.pn,
+                    "fr":p.frames.iter().map(|(i, c)| json!([i + 1, c])).collect::<Vec<_>>()})
+            })
+            .collect();
         let base = json!({"ev":"Rx","t":tnow,"n":n,"id":d.id,"orig":d.orig,"src":addr_id(d.src),
             "size":size,"cls":d.cls,"first":d.data.first().copied().unwrap_or(0),"pk":pk,
-            "exact":d.exact});
+            "exact":d.exact,"ipk":ipk,
+            "otypes":d.pkts.iter().map(|p| match p.ty { PType::Retry => "R", PType::VersionNeg => "V", _ => "P" }).collect::<String>()});
         let Some(r) = r else { return };
         match r {
             None => {
@@ -1225,8 +1344,9 @@ impl World {
                     },
                 );
                 let p = self.probe(n, ch.0);
-                self.trace
-                    .push(json!({"ev":"Accept","t":t,"n":n,"c":ch.0,"ok":true,"post":p}));
+                let fr = frame_rx_vec(&self.nodes[n].conns[&ch.0].conn.stats().frame_rx);
+                self.trace.push(json!({"ev":"Accept","t":t,"n":n,"c":ch.0,"ok":true,"post":p,
+                    "dfr":fr.to_vec()}));
                 self.after_input(n, ch.0);
             }
             Some(Err(e)) => {
